@@ -878,8 +878,8 @@ theorem C10_full_partial (files : List (Bytes × Bytes)) (songs : List LinkSpec.
 /-- The full statement of C10 over the model, kept for the record: for every list of well-formed
 MDS files (as read by the spec's own reader, PCM start offsets 0 — D11) that the linker accepts, the
 spec resolver accepts the linked sequence bank with the linked PCM bank, and the header reader
-accepts both headers.  PROVED as `C10_full_partial` with two extra hypotheses, and as stated here it is
-false without them: (1) the linked bank is shorter than 4 GiB — song and wave-table offsets are
+accepts both headers.  PROVED as `C10_full_partial` with two extra hypotheses; as stated here it does not
+hold without them (by reading; no witness is proved, the smallest ones are far too large to evaluate): (1) the linked bank is shorter than 4 GiB — song and wave-table offsets are
 written as 32-bit words (`be32` truncates; the C++ computes them in an `int`); (2) fewer than 65536
 songs — the bank header carries the song count, and the headers the song numbers, in 16 bits
 (`write_be16(data, 6, get_seq_count())`, `uint16_t value`): the 65536th song makes the count read 0.
